@@ -211,6 +211,21 @@ class Check(PropertyCheck):
             if d.schedule.is_complete():
                 dd = json.loads(json.dumps(d.schedule.to_dict()))
                 try:
+                    # a sibling instance first: same name, durations and metadata, machines rotated - loading its
+                    # schedule must not influence loading ours
+                    I0 = impl.instance
+                    M0 = I0.num_machines
+                    if not I0.is_flexible and M0 > 1:
+                        sib = jsl.JobShopInstance(
+                            [[jsl.Operation((op.machine_id + 1) % M0, op.duration) for op in job] for job in I0.jobs],
+                            name=I0.name, **I0.metadata)
+                        ds = jsl.Dispatcher(sib)
+                        for x in sorted((x for ms in d.schedule.schedule for x in ms), key=lambda x: (x.start_time, x.operation.position_in_job)):
+                            ds.dispatch(sib.jobs[x.operation.job_id][x.operation.position_in_job])
+                        sd = json.loads(json.dumps(ds.schedule.to_dict()))
+                        s_sib = jsl.Schedule.from_dict(**sd)
+                        if oracles.dump_schedule(s_sib.schedule) != oracles.dump_schedule(ds.schedule.schedule):
+                            res.append(("fromdict", "Schedule.from_dict(to_dict()) of the sibling instance differs"))
                     s2 = jsl.Schedule.from_dict(**dd)
                     if oracles.dump_schedule(s2.schedule) != oracles.dump_schedule(d.schedule.schedule):
                         res.append(("fromdict", "Schedule.from_dict(to_dict()) differs from the schedule"))
